@@ -11,6 +11,7 @@ void h_rand_seed(uint64_t s);
 void h_rand_fail_next(int n);
 const char *h_regex_pattern(const regex_t *preg);
 void h_alloc_arm(long fail_at, int track_sites);
+long h_alloc_count(void);
 void h_lock_edges(FILE *out);
 void h_lock_reset(void);
 long h_alloc_count(void);
